@@ -50,7 +50,7 @@ def run(chk):
         "corr_distinct_nontrivial": sum(s["nontrivial"] for s in stats_all),
         "corr_mismatches": sum(s["mismatch"] for s in stats_all),
         "corr_oracle_failures": sum(s["oracle_fail"] for s in stats_all),
-        "corr_rule": "random op scripts over the real BddOps/bdd_to_dnf/dnf_to_bdd from up to N atoms; every intermediate result is compared as a COMPLETE truth table (all 2^n assignments) between the Rust diagram and the Lean model; independently the Rust result's table is compared with the Boolean combination of the operands' own tables (property oracle, no model involved). non-trivial = script whose final table is neither all-0 nor all-1; distinct = distinct request text. Type-vector layer: random scripts of intersect / union / diff / complement over the real SemTypeOps from 2-7 scalar atoms (string, number, boolean, null, undefined, unknown, never, the absent-property tag, string / number / boolean literals): every intermediate vector is printed canonically (per tag: none / all / only{…} / except{…}) and compared with the Lean port (Model/SemType.lean, the subject of Props/C06Sem); oracle: membership of 14 sample values in every result equals the Boolean combination of the operands' memberships, and the vector stays sorted by tag",
+        "corr_rule": "random op scripts over the real BddOps/bdd_to_dnf/dnf_to_bdd from up to N atoms; every intermediate result is compared as a COMPLETE truth table (all 2^n assignments) between the Rust diagram and the Lean model; independently the Rust result's table is compared with the Boolean combination of the operands' own tables (property oracle, no model involved). non-trivial = script whose final table is neither all-0 nor all-1; distinct = distinct request text. Type-vector layer: random scripts of intersect / union / diff / complement over the real SemTypeOps from 2-9 atoms (string, number, boolean, null, undefined, unknown, never, the absent-property tag, string / number / boolean literals, and object / list atoms as one-node diagrams): every intermediate vector is printed canonically (per tag: none / all / only{…} / except{…}; a structural tag as none / all / the truth table of its diagram over the tag's atoms) and compared with the Lean port (Model/SemType.lean, the subject of Props/C06Sem); oracle: membership of 26 sample values (14 scalar values, 8 truth assignments to the object atoms, 4 to the list atoms) in every result equals the Boolean combination of the operands' memberships, and the vector stays sorted by tag",
         "evaluations": ev,
         "distinct_nontrivial": sum(s["nontrivial"] for s in stats_all),
     })
